@@ -9,6 +9,13 @@ import NflowsModel.Lemmas.StructureExec
 The scalar/structural model evaluates rows independently by construction; the content of the property is in the
 places where the CODE is not written row by row.  Each such place is modelled as the code does it and proved equal
 to a row-wise map.  A row-wise map is then equivariant under batch permutations and insensitive to the other rows.
+
+**Limits** (external audit): theorems here cover the boolean-mask gather / scatter, the image parameter layout and the executed
+coupling / autoregressive / CDF passes.  Not covered by a theorem (correspondence and row-vs-batch oracle only): distributions and
+flows (`log_prob` of a batch vs rows), the linear family, 1×1 convolution, normalisation layers in evaluation mode, conditioner
+networks themselves (their row-wise behaviour is the hypothesis `hp`, compared numerically).  Row independence of the executed
+passes is stated for the `out` / `ld` arrays; a batch in which ONE row is out of domain is rejected as a whole by the code
+(`err`), and the theorems say nothing about `err`.  `rowwise_*` are facts about `List.map`.
 -/
 open NF
 
